@@ -35,5 +35,6 @@ def run(ck):
     funcs.template_sizes(ck, "C08.R3")
     routes.numpy_dispatch_transparent(ck, "C15.R5")
     sizes.resize_rules(ck, {"nint": "C02.R3"})
+    sizes.init_size_relation(ck, "C06.R1")             # results are built from (signed, n_int, n_frac): the word follows from them with the signedness in force
     funcs.route_selection(ck, "C07.R8")
     fresh.no_hidden_state(ck, "C20.R8")                  # results depend on the documented state only (no caches / memos)
